@@ -3,7 +3,8 @@
    |ppf(alpha/2)| and the p-values 2 sf(|t|) are scipy's and enter as inputs /
    Section hypotheses. *)
 From Coq Require Import List ZArith Bool Reals.
-From VV Require Import Lib.Base Lib.B64 C06.LibF C05.Model C05.Proofs C05.Laws.
+From Flocq Require Import Core.Core IEEE754.BinarySingleNaN.
+From VV Require Import Lib.Base Lib.B64 C06.LibF C05.Model C05.Proofs C05.Laws C05.Rounding C05.Symmetry C05.Monotone.
 Import ListNotations.
 
 (* verdict true iff every bin of every compared dataset has |t| < threshold *)
@@ -128,3 +129,43 @@ Proof.
                 (decisions_agree sf alpha thr H1 H2 H3)).
 Qed.
 Print Assumptions C05_pvalue_decision_agrees.
+
+(* link between the two evaluators: when every intermediate binary64 value is finite, the
+   binary64 evaluation of an expression tree is its real evaluation with one rounding to
+   nearest-even per operation; in particular for the statistic outside the conventions *)
+Theorem C05_statistic_is_rounded_real_formula :
+  (forall env e, all_finite env e = true ->
+     B2R (evalB env e) = evalRnd (fun v => B2R (env v)) e) /\
+  (forall v1 e1 v2 e2,
+     patched v1 e1 v2 e2 = false -> all_finite (env_of v1 e1 v2 e2) t_expr = true ->
+     B2R (student_t v1 e1 v2 e2) =
+     rnd (rnd (B2R v1 - B2R v2) / rnd (sqrt (rnd (rnd (B2R e1 * B2R e1) + rnd (B2R e2 * B2R e2)))))%R).
+Proof. exact (conj evalB_rounds_evalR student_t_rounds). Qed.
+Print Assumptions C05_statistic_is_rounded_real_formula.
+
+(* symmetric in the two datasets, bit for bit, for ALL binary64 inputs (NaN, infinities,
+   overflow included): |t(a,b)| = |t(b,a)|, hence identical oracles and verdict *)
+Theorem C05_abs_t_symmetric :
+  (forall v1 e1 v2 e2, fabs (student_t v1 e1 v2 e2) = fabs (student_t v2 e2 v1 e1)) /\
+  (forall thr v1 e1 v2 e2,
+     oracle thr (student_t v1 e1 v2 e2) = oracle thr (student_t v2 e2 v1 e1)) /\
+  (forall thr (dss : list (list bin4)),
+     map (map (fun b => oracle thr (t_of b))) dss
+     = map (map (fun b => oracle thr (t_of (swap b)))) dss /\
+     verdict thr (map (map t_of) dss) = verdict thr (map (map (fun b => t_of (swap b))) dss)).
+Proof. exact (conj abs_t_symmetric (conj oracle_symmetric verdict_symmetric)). Qed.
+Print Assumptions C05_abs_t_symmetric.
+
+(* never improves when a difference grows or an error shrinks, on binary64, whenever every
+   intermediate value is finite (no NaN/inf, no overflow, errors not both zero): |t| does
+   not decrease, so a bin that passes after the change passed before it *)
+Theorem C05_never_improves :
+  forall thr v1 e1 v2 e2 v1' e1' v2',
+  patched v1 e1 v2 e2 = false -> all_finite (env_of v1 e1 v2 e2) t_expr = true ->
+  patched v1' e1' v2' e2 = false -> all_finite (env_of v1' e1' v2' e2) t_expr = true ->
+  (e1' = e1 /\ (Rabs (B2R v1 - B2R v2) <= Rabs (B2R v1' - B2R v2'))%R) \/
+  (v1' = v1 /\ v2' = v2 /\ (Rabs (B2R e1') <= Rabs (B2R e1))%R) ->
+  (Rabs (B2R (student_t v1 e1 v2 e2)) <= Rabs (B2R (student_t v1' e1' v2' e2)))%R /\
+  (oracle thr (student_t v1' e1' v2' e2) = true -> oracle thr (student_t v1 e1 v2 e2) = true).
+Proof. exact never_improves. Qed.
+Print Assumptions C05_never_improves.
